@@ -35,6 +35,7 @@ import (
 	"github.com/bytedance/sonic"
 	"github.com/gorilla/mux"
 	"github.com/influxdata/influxdb/uuid"
+	originql "github.com/influxdata/influxql"
 	"github.com/openGemini/openGemini/lib/bufferpool"
 	compression "github.com/openGemini/openGemini/lib/compress"
 	"github.com/openGemini/openGemini/lib/config"
@@ -196,12 +197,41 @@ func ValidateRepoAndLogStream(repoName, streamName string) error {
 	return nil
 }
 
+// authorizeLogStoreAdmin: requests that change the catalogue through the log-store API (repositories, log streams,
+// stream tasks) need an administrator when authentication is enabled, like CREATE / DROP DATABASE.
+func (h *Handler) authorizeLogStoreAdmin(w http.ResponseWriter, user meta2.User) bool {
+	if !h.Config.AuthEnabled {
+		return true
+	}
+	if user == nil || !user.AuthorizeUnrestricted() {
+		h.httpErrorRsp(w, ErrorResponse("error authorizing, requires admin privilege", LogReqErr), http.StatusForbidden)
+		return false
+	}
+	return true
+}
+
+// authorizeLogStoreRead: with authentication enabled, reading a repository through the log-store API needs the
+// read privilege on it.
+func (h *Handler) authorizeLogStoreRead(w http.ResponseWriter, user meta2.User, repository string) bool {
+	if !h.Config.AuthEnabled {
+		return true
+	}
+	if user == nil || !user.AuthorizeDatabase(originql.ReadPrivilege, repository) {
+		h.httpErrorRsp(w, ErrorResponse(fmt.Sprintf("user is not authorized to read from repository %q", repository), LogReqErr), http.StatusForbidden)
+		return false
+	}
+	return true
+}
+
 func (h *Handler) serveCreateRepository(w http.ResponseWriter, r *http.Request, user meta2.User) {
 	repository := mux.Vars(r)[Repository]
 	if err := ValidateRepository(repository); err != nil {
 		logger.GetLogger().Error("serveCreateRepository", zap.Error(err))
 		h.httpErrorRsp(w, ErrorResponse(err.Error(), LogReqErr), http.StatusBadRequest)
 		handlerStat.Write400ErrRequests.Incr()
+		return
+	}
+	if !h.authorizeLogStoreAdmin(w, user) {
 		return
 	}
 	options := &obs.ObsOptions{}
@@ -252,6 +282,9 @@ func (h *Handler) serveDeleteRepository(w http.ResponseWriter, r *http.Request, 
 		handlerStat.Write400ErrRequests.Incr()
 		return
 	}
+	if !h.authorizeLogStoreAdmin(w, user) {
+		return
+	}
 	logger.GetLogger().Info("serveDeleteRepository", zap.String("repository", repository))
 	err := h.MetaClient.MarkDatabaseDelete(repository)
 	if err != nil {
@@ -297,6 +330,9 @@ func (h *Handler) serveShowRepository(w http.ResponseWriter, r *http.Request, us
 		handlerStat.Write400ErrRequests.Incr()
 		return
 	}
+	if !h.authorizeLogStoreRead(w, user, repository) {
+		return
+	}
 	h.Logger.Info("serveRepository", zap.String("repository", repository))
 	logStreams, err := h.MetaClient.Measurements(repository, nil)
 	if err != nil {
@@ -328,6 +364,9 @@ func (h *Handler) serveUpdateRepository(w http.ResponseWriter, r *http.Request, 
 		handlerStat.Write400ErrRequests.Incr()
 		return
 	}
+	if !h.authorizeLogStoreAdmin(w, user) {
+		return
+	}
 	logger.GetLogger().Info("serveUpdateRepository", zap.String("repository", repository))
 
 	h.writeHeader(w, http.StatusOK)
@@ -355,6 +394,9 @@ func (h *Handler) serveCreateLogstream(w http.ResponseWriter, r *http.Request, u
 		logger.GetLogger().Error("serveCreateLogstream", zap.Error(err))
 		h.httpErrorRsp(w, ErrorResponse(err.Error(), LogReqErr), http.StatusBadRequest)
 		handlerStat.Write400ErrRequests.Incr()
+		return
+	}
+	if !h.authorizeLogStoreAdmin(w, user) {
 		return
 	}
 	options := &meta2.Options{}
@@ -402,6 +444,9 @@ func (h *Handler) serveDeleteLogstream(w http.ResponseWriter, r *http.Request, u
 		handlerStat.Write400ErrRequests.Incr()
 		return
 	}
+	if !h.authorizeLogStoreAdmin(w, user) {
+		return
+	}
 	logger.GetLogger().Info("serveDeleteLogstream", zap.String("logStream", logStream), zap.String("repository", repository))
 	if err := h.MetaClient.MarkRetentionPolicyDelete(repository, logStream); err != nil {
 		logger.GetLogger().Error("serveDeleteLogstream", zap.Error(err))
@@ -417,6 +462,9 @@ func (h *Handler) serveListLogstream(w http.ResponseWriter, r *http.Request, use
 		h.Logger.Error("serveListLogstream", zap.Error(err))
 		h.httpErrorRsp(w, ErrorResponse(err.Error(), LogReqErr), http.StatusBadRequest)
 		handlerStat.Write400ErrRequests.Incr()
+		return
+	}
+	if !h.authorizeLogStoreRead(w, user, repository) {
 		return
 	}
 	h.Logger.Info("serveListLogstream", zap.String("repository", repository))
@@ -457,6 +505,9 @@ func (h *Handler) serveShowLogstream(w http.ResponseWriter, r *http.Request, use
 		handlerStat.Write400ErrRequests.Incr()
 		return
 	}
+	if !h.authorizeLogStoreRead(w, user, repository) {
+		return
+	}
 	rpi, err := h.MetaClient.RetentionPolicy(repository, logStream)
 	if err != nil {
 		h.Logger.Error("serveLogstream GetLogStreamByName", zap.Error(err))
@@ -494,6 +545,9 @@ func (h *Handler) serveUpdateLogstream(w http.ResponseWriter, r *http.Request, u
 		logger.GetLogger().Error("serveUpdateLogstream", zap.Error(err))
 		h.httpErrorRsp(w, ErrorResponse(err.Error(), LogReqErr), http.StatusBadRequest)
 		handlerStat.Write400ErrRequests.Incr()
+		return
+	}
+	if !h.authorizeLogStoreAdmin(w, user) {
 		return
 	}
 	option := &meta2.Options{}
@@ -1682,6 +1736,9 @@ func (h *Handler) serveRecord(w http.ResponseWriter, r *http.Request, user meta2
 		handlerStat.Write400ErrRequests.Incr()
 		return
 	}
+	if err := h.checkWriteAuthorization(w, user, req.repository); err != nil {
+		return
+	}
 
 	logInfo, err := h.validateRetentionPolicy(req.repository, req.logStream)
 	if err != nil {
@@ -1855,6 +1912,9 @@ func (h *Handler) serveUpload(w http.ResponseWriter, r *http.Request, user meta2
 			zap.String("logStream", logStream))
 		h.httpErrorRsp(w, ErrorResponse(err.Error(), LogReqErr), http.StatusBadRequest)
 		handlerStat.Write400ErrRequests.Incr()
+		return
+	}
+	if err := h.checkWriteAuthorization(w, user, repository); err != nil {
 		return
 	}
 
@@ -3211,6 +3271,9 @@ func (h *Handler) serveRecallData(w http.ResponseWriter, r *http.Request, user m
 		h.Logger.Error("serveRecallData", zap.Error(err))
 		h.httpErrorRsp(w, ErrorResponse(err.Error(), LogReqErr), http.StatusBadRequest)
 		handlerStat.Write400ErrRequests.Incr()
+		return
+	}
+	if !h.authorizeLogStoreAdmin(w, user) {
 		return
 	}
 
